@@ -189,8 +189,30 @@ def extensions(alpha, comb):
             yield [comb[p] for p in perm]
 
 
+# The entry call (from_/into/update) among the permuted calls: every order of one call per clause. Orders that the reference
+# tree rejects (a call that needs the FROM table before it exists) are listed; every other order must build and give the
+# statement of the entry-first order.
+ENTRY_FREE = {
+    "update": [["update", T], ["from", U], ["set", f("t", "a"), f("u", "x")], ["where", ["cmp", "=", f("t", "id"), f("u", "tid")]]],
+    "update_plain": [["update", T], ["set", f("t", "a"), raw(1)], ["where", ["cmp", "=", f("t", "id"), raw(3)]], ["with", "c1", {"calls": [["from", V], ["select", [f("v", "id")]]]}]],
+    "select": [["from", T], ["select", [f("t", "a")]], ["where", ["cmp", ">", f("t", "a"), raw(1)]], ["orderby", [f("t", "a")], "asc"], ["limit", 3]],
+    "select_join": [["from", T], ["join", "inner", U, ["on", ["cmp", "=", f("t", "id"), f("u", "tid")]]], ["select", [f("t", "a")]], ["where", ["cmp", ">", f("u", "x"), raw(1)]]],
+    "delete": [["from", T], ["delete"], ["where", ["cmp", "=", f("t", "a"), raw(1)]]],
+    "insert": [["into", TI], ["columns", ["a", "b"]], ["insert", [raw(1), raw(2)]]],
+}
+# (INSERT .. SELECT is left out: into() after select() is the library's SELECT .. INTO, another statement)
+# (statement, call that raised, call names made before it) on the reference tree
+ENTRY_FREE_REJECTED = {
+    "insert|columns||AttributeError", "insert|insert||AttributeError",  # columns() / insert() need the target table
+    "select_join|join||JoinException", "select_join|join|select|JoinException", "select_join|join|where|JoinException",
+    "select_join|join|select,where|JoinException",  # join() needs the FROM table its ON criterion refers to
+}
+
+
 def chunks(tier, seed):
     out = []
+    for d in fp.CTX:
+        out.append({"d": d, "kind": "entry_free"})
     size = 3 if tier == "quick" else 4
     for d in fp.CTX:
         for kind in KINDS:
@@ -203,6 +225,10 @@ def chunks(tier, seed):
 
 def expand(chunk):
     d, kind = chunk["d"], chunk["kind"]
+    if kind == "entry_free":
+        for name in ENTRY_FREE:
+            yield {"d": d, "kind": "entry_free", "stmt": name, "comb": []}
+        return
     if kind == "ddl":
         for comb in multisets(DDL_ALPHA, chunk["size"]):
             yield {"d": d, "kind": "ddl", "comb": comb}
@@ -259,6 +285,23 @@ def check_skeleton(sql, lexd, kind):
     if stmt is None:
         return "unknown-statement-head:%s" % head
     order = ORDER[stmt]
+    if stmt == "SELECT":
+        # modifiers of the select list: SELECT [DISTINCT] [TOP (n)] items (T-SQL reads them in this order only)
+        depth, p_top, p_distinct = 0, None, None
+        for i, t in enumerate(toks):
+            if t.kind == "OP" and t.text == "(":
+                depth += 1
+            elif t.kind == "OP" and t.text == ")":
+                depth -= 1
+            elif depth == 0 and t.kind == "WORD":
+                if t.value == "FROM":
+                    break
+                if t.value == "TOP" and p_top is None:
+                    p_top = i
+                if t.value == "DISTINCT" and p_distinct is None:
+                    p_distinct = i
+        if p_top is not None and p_distinct is not None and p_top < p_distinct:
+            return "clause-order:DISTINCT-after-TOP"
     # context dependent keywords
     seq = []
     seen_set = seen_do = False
@@ -444,8 +487,57 @@ def build_ddl(order):
     return q
 
 
+def run_entry_free(case, res):
+    d, name = case["d"], case["stmt"]
+    calls = ENTRY_FREE[name]
+    res.nontrivial = 1
+    res.states.append(h64(json.dumps([d, name])))
+    ref_key = None
+    for order in itertools.permutations(range(len(calls))):
+        env = prog.Env(d)
+        q = env.Q._builder()
+        done = []
+        key = None
+        for j in order:
+            try:
+                q = prog.call(q, calls[j], env)
+            except Exception as e:
+                key = ("!", calls[j][0], tuple(sorted(done)), type(e).__name__)
+                break
+            done.append(calls[j][0])
+        res.transitions += 1
+        if key is None:
+            try:
+                sql, _ = prog.render(q, d)
+                psql, vals = prog.render(q, d, param=True)
+                key = json.dumps([sql, psql, fp.vrepr(vals)])
+            except Exception as e:
+                key = ("!", "render", tuple(), type(e).__name__)
+        if isinstance(key, tuple):
+            ent = "%s|%s|%s|%s" % (name, key[1], ",".join(key[2]), key[3])
+            if _ENTRY_FREE_RECORD is not None:
+                _ENTRY_FREE_RECORD.add(ent)
+            elif ent not in ENTRY_FREE_REJECTED:
+                res.violate("C13|entry_free|%s|rejected|%s" % (name, key[3]), "an order of clause-setting calls that the reference tree accepts is rejected: "
+                            "%s() after %s" % (key[1], list(key[2]) or "nothing"), dialect=d, order=[calls[j][0] for j in order])
+            continue
+        res.outcomes.append(h64(key))
+        if ref_key is None:
+            ref_key, ref_order = key, order
+        elif key != ref_key:
+            res.violate("C13|entry_free|%s|order-dependent" % name, "two orders of the same clause-setting calls give different statements",
+                        dialect=d, order1=[calls[j][0] for j in ref_order], out1=ref_key[:300], order2=[calls[j][0] for j in order], out2=key[:300])
+            return
+
+
+_ENTRY_FREE_RECORD = None
+
+
 def run_case(case):
     res = Result()
+    if case["kind"] == "entry_free":
+        run_entry_free(case, res)
+        return res
     d, kind, comb = case["d"], case["kind"], case["comb"]
     lexd = "sqlite" if d == "generic" else d
     res.states.append(h64(json.dumps([kind, comb])))
